@@ -766,7 +766,7 @@ func rulePublishedImmutable(c *Ctx) {
 					checkWrite(fn, ins, x.Call.Args[1], "read-into")
 				case n == "(*github.com/pion/rtp.Header).Unmarshal":
 					// writes the embedded header of the packet
-					if f, base, ok := fieldAddr(x.Call.Args[0]); ok && f.Name() == "Header" && typeIs(base.Type(), modRel("av/format/rtp"), "Packet") {
+					if f, base, ok := fieldAddr(x.Call.Args[0]); ok && theProgram.baseFieldName(f) == "Header" && typeIs(base.Type(), modRel("av/format/rtp"), "Packet") {
 						nsites++
 						key := "unmarshal:Packet.Header@" + fname(fn)
 						if why, ok := ctor[fn]; ok {
@@ -1012,5 +1012,5 @@ func isDestAddrLoad(v ssa.Value) bool {
 		return false
 	}
 	f, _, ok := fieldAddr(ia.X)
-	return ok && f.Name() == "destAddr"
+	return ok && theProgram.baseFieldName(f) == "destAddr"
 }
